@@ -1,0 +1,112 @@
+//go:build verif
+
+package fontscan
+
+// Hooks for the verification harness, only compiled with the build tag `verif`.
+// They export otherwise unexported persistence / scan internals and give
+// read-only views of FontMap state. Nothing here changes the behaviour of the package.
+
+import (
+	"io"
+	"sync"
+
+	"github.com/go-text/typesetting/font"
+	"github.com/go-text/typesetting/language"
+)
+
+// VerifFontDirs, when non nil, replaces the OS-dependent font directories
+// returned by [DefaultFontDirectories].
+var VerifFontDirs []string
+
+func verifFontDirs() []string { return VerifFontDirs }
+
+// VerifIndex is the on-disk index type.
+type VerifIndex = systemFontsIndex
+
+// VerifFileEntry mirrors fileFootprints.
+type VerifFileEntry struct {
+	Path       string
+	ModTime    int64
+	Footprints []Footprint
+}
+
+// VerifScan is scanFontFootprints.
+func VerifScan(logger Logger, current VerifIndex, dirs ...string) (VerifIndex, error) {
+	return scanFontFootprints(logger, current, dirs...)
+}
+
+// VerifSerializeIndex is systemFontsIndex.serializeTo.
+func VerifSerializeIndex(idx VerifIndex, w io.Writer) error { return idx.serializeTo(w) }
+
+// VerifDeserializeIndex is deserializeIndex.
+func VerifDeserializeIndex(r io.Reader) (VerifIndex, error) { return deserializeIndex(r) }
+
+// VerifSerializeToFile is systemFontsIndex.serializeToFile.
+func VerifSerializeToFile(idx VerifIndex, path string) error { return idx.serializeToFile(path) }
+
+// VerifDeserializeIndexFile is deserializeIndexFile.
+func VerifDeserializeIndexFile(path string) (VerifIndex, error) { return deserializeIndexFile(path) }
+
+// VerifRefresh is refreshSystemFontsIndex.
+func VerifRefresh(logger Logger, cachePath string) (VerifIndex, error) {
+	return refreshSystemFontsIndex(logger, cachePath)
+}
+
+// VerifResetSystemFonts re-arms the process-global system font initialisation.
+func VerifResetSystemFonts() {
+	initSystemFontsOnce = sync.Once{}
+	systemFonts = nil
+}
+
+// VerifIndexEntries exposes the content of an index.
+func VerifIndexEntries(idx VerifIndex) []VerifFileEntry {
+	out := make([]VerifFileEntry, len(idx))
+	for i, ff := range idx {
+		out[i] = VerifFileEntry{Path: ff.path, ModTime: int64(ff.modTime), Footprints: ff.footprints}
+	}
+	return out
+}
+
+// VerifMakeIndex builds an index from entries.
+func VerifMakeIndex(entries []VerifFileEntry) VerifIndex {
+	out := make(VerifIndex, len(entries))
+	for i, e := range entries {
+		out[i] = fileFootprints{path: e.Path, modTime: timeStamp(e.ModTime), footprints: e.Footprints}
+	}
+	return out
+}
+
+// VerifFlatten is systemFontsIndex.flatten.
+func VerifFlatten(idx VerifIndex) []Footprint { return idx.flatten() }
+
+// VerifCandidates is a copy of the candidate lists of a FontMap.
+type VerifCandidates struct {
+	WithoutFallback, WithFallback, Manual []int
+}
+
+// VerifCandidates builds (if needed) and returns a copy of the candidates
+// for the current query and script.
+func (fm *FontMap) VerifCandidates() VerifCandidates {
+	fm.buildCandidates()
+	return VerifCandidates{
+		WithoutFallback: append([]int(nil), fm.candidates.withoutFallback...),
+		WithFallback:    append([]int(nil), fm.candidates.withFallback...),
+		Manual:          append([]int(nil), fm.candidates.manual...),
+	}
+}
+
+// VerifDatabase returns a copy of the footprint database of a FontMap.
+func (fm *FontMap) VerifDatabase() []Footprint { return append([]Footprint(nil), fm.database...) }
+
+// VerifScriptMap returns the database indices registered for a script.
+func (fm *FontMap) VerifScriptMap(s language.Script) []int {
+	return append([]int(nil), fm.scriptMap[s]...)
+}
+
+// VerifIsUserProvided exposes Footprint.isUserProvided.
+func VerifIsUserProvided(fp Footprint) bool { return fp.isUserProvided }
+
+// VerifRetainsBestMatches is fontSet.retainsBestMatches (on a copy of candidates).
+func VerifRetainsBestMatches(db []Footprint, candidates []int, aspect font.Aspect) []int {
+	return fontSet(db).retainsBestMatches(append([]int(nil), candidates...), aspect)
+}
